@@ -94,7 +94,28 @@ def cart_specs(draw, tier):
 @st.composite
 def cyl_specs(draw, tier):
     g = draw(gen.cyl_grids(max_shape=(8, 16) if tier == "quick" else (10, 24)))
-    bits = draw(_mask_bits((g["nr"], g["nz"]), (False, g["periodic_z"])))
+    if draw(st.booleans()) and g["nz"] >= 4:
+        # on-axis objects that are lopsided along z: a thick disc with a thin filament along the axis, placed anywhere
+        # (also across the periodic boundary), so that parts of the object lie far from its centre of mass
+        nr, nz = g["nr"], g["nz"]
+        mask = np.zeros((nr, nz), bool)
+        for _ in range(draw(st.integers(1, 2))):
+            z0 = draw(st.integers(0, nz - 1))
+            thick = draw(st.integers(1, max(1, nz // 4)))
+            rad = draw(st.integers(1, nr))
+            flen = draw(st.integers(0, nz - thick - 1))
+            side = draw(st.sampled_from([1, -1]))
+            zz = np.arange(z0, z0 + thick)
+            ff = np.arange(z0 + thick, z0 + thick + flen) if side > 0 else np.arange(z0 - flen, z0)
+            if g["periodic_z"]:
+                zz, ff = zz % nz, ff % nz
+            else:
+                zz, ff = zz[(zz >= 0) & (zz < nz)], ff[(ff >= 0) & (ff < nz)]
+            mask[:rad, zz] = True
+            mask[0, ff] = True
+        bits = gen.mask_to_bits(mask)
+    else:
+        bits = draw(_mask_bits((g["nr"], g["nz"]), (False, g["periodic_z"])))
     return {"family": "cyl", "grid": g, "bits": bits, "via": "mask"}
 
 
@@ -124,7 +145,7 @@ class C02(Property):
     id = "C02"
     rule = (
         "Binary images fed to locate_droplets_in_mask (and to locate_droplets with a two-valued field + threshold). "
-        "Exhaustive: every image on small Cartesian grids for every periodicity mask (plus all 65536 images of the fully periodic 4x4 grid) and on small cylindrical grids "
+        "Exhaustive: every image on small Cartesian grids for every periodicity mask (plus all 65536 images of the fully periodic 4x4 grid), on small cylindrical grids, and a sweep of lopsided on-axis objects (disc + axial filament) over every z-translation of periodic 4x8 / 4x9 cylinders "
         "for both periodic_z; random: Hypothesis-built masks (cell-wise, noise at 5-70 % density, wrapped boxes, "
         "persistent random walks = snakes/rings/winding paths, mixtures, percolation-like noise on fully periodic 2-D/3-D grids) on grids up to 40 / 16x16 / 8^3 cells "
         "(cylindrical up to 8x16) with anisotropic spacings and arbitrary origins.  Oracle: independent BFS "
@@ -140,7 +161,7 @@ class C02(Property):
     ]
 
     def budget(self, tier):
-        return {"examples": 3200 if tier == "quick" else 120000, "shards": 12 if tier == "quick" else 16}
+        return {"examples": 6400 if tier == "quick" else 120000, "shards": 12 if tier == "quick" else 16}
 
     def strategy(self, tier):
         return specs(tier)
@@ -171,9 +192,26 @@ class C02(Property):
                 chunk = max(1, total // (1 if total <= 4096 else 16))
                 for lo in range(0, total, chunk):
                     jobs.append({"domain": f"cyl-{shape[0]}x{shape[1]}", "family": "cyl", "shape": list(shape), "periodic": per, "lo": lo, "hi": min(total, lo + chunk)})
+        # lopsided on-axis objects (thick disc + thin filament along the axis) at every z-translation of a periodic cylinder
+        for nz in ([8, 9] if tier == "quick" else [8, 9, 12, 15]):
+            jobs.append({"domain": "cyl-lopsided-sweep", "family": "cyl-lopsided", "shape": [4, nz]})
         return jobs
 
     def expand(self, job):
+        if job["family"] == "cyl-lopsided":
+            nr, nz = job["shape"]
+            g = {"nr": nr, "nz": nz, "dr": 0.5, "dz": 0.8, "z0": -1.3, "periodic_z": True}
+            for z0 in range(nz):
+                for thick in (1, 2):
+                    for rad in (1, 2, 4):
+                        for flen in range(0, nz - thick):
+                            for side in (1, -1):
+                                mask = np.zeros((nr, nz), bool)
+                                mask[:rad, np.arange(z0, z0 + thick) % nz] = True
+                                ff = np.arange(z0 + thick, z0 + thick + flen) if side > 0 else np.arange(z0 - flen, z0)
+                                mask[0, ff % nz] = True
+                                yield {"family": "cyl", "grid": g, "bits": gen.mask_to_bits(mask), "via": "mask"}
+            return
         if job["family"] == "cart":
             nd = len(job["shape"])
             v = job["variant"]
